@@ -20,6 +20,7 @@ import Drv.Quasigo
 import Drv.SrcLoad
 import Drv.Sink
 import Drv.SrcGroup
+import Drv.IRLoad
 /-!
 Line-protocol driver: one operation per line on stdin, one canonical answer line on stdout.
 Every engine exports `handle : List String → Option String` answering only its own ops;
@@ -49,7 +50,8 @@ def handlers : List (List String → Option String) := [
   Drv.Quasigo.handle,
   Drv.SrcLoadD.handle,
   Drv.SinkD.handle,
-  Drv.SrcGroupD.handle
+  Drv.SrcGroupD.handle,
+  Drv.IRLoadD.handle
 ]
 
 def dispatch (fs : List String) : Option String :=
